@@ -1,6 +1,7 @@
 """C03 - the TZ compiler reports everything it does not emit (structural clauses): accounting of every dropped
 zone/policy/link, kind consistency of the reason collections, role flow from Transformer.get_data() to the generated
-comments, filter chain, duplicate-operand and formatting-arity lints, extractor accounting."""
+comments, duplicate-operand and formatting-arity lints, extractor accounting; the accounting itself is decided on
+interpreted compilations (rules_C03b.py)."""
 import ast
 import re
 
@@ -15,13 +16,17 @@ META = {
                    'Transformer.get_data() through tzcompiler.main, TzDbCollector and the generator constructors; the last step - '
                    'each removed/notable collection comes out, with its reasons, under the heading of its own role - is read off the '
                    'zone_infos.h / zone_policies.h that ArduinoGenerator.generate_files() writes for a tagged miniature database '
-                   '(E-SEQ over the Python ast, acv/pyeval.py + acv/genrender.py); call/assignment chain of transform(), ast lints '
+                   '(E-SEQ over the Python ast, acv/pyeval.py + acv/genrender.py); the whole compiler interpreted on a sweep source and on a '
+                   'feature source (one zone, policy or link per removal reason and note) in both scopes: emitted xor removed with a '
+                   'reason (R10), altered values carry a note (R11), the Python tables equal the source lines (R12), every filter and '
+                   '52 of the 55 reason sites are reached by the interpretation (R5); ast lints '
                    '(identical operands, % formatting arity); the silent "unused rule" removal is interpreted: '
                    '_mark_rules_used_by_zones + _remove_rules_unused on seven zone shapes x all policies of one or two rules whose '
                    'FROM/TO years sit on and around the era boundaries - every rule an era can select survives.',
     'decided': 'every zone/policy/link a Transformer filter does not pass on is recorded with a reason in a collection of its own '
                'kind that is merged into the matching all_removed_* / all_notable_* attribute; those attributes reach the '
-               'generated headers under the matching role; every filter is called and its result is what transform() stores; '
+               'generated headers under the matching role; on the sweep and feature sources every zone, policy and link is emitted or '
+               'removed with a reason (never both, never neither) and every filter of the transformer is reached; '
                'no comparison has two identical operands; % formatting operand counts match; the extractor records what it skips; '
                'no rule an era can select (closed year interval of the era, and the latest rule before it) is removed as unused',
     'not_decided': 'that what is emitted has zic\'s semantics at every instant (end-to-end semantic preservation)',
